@@ -259,6 +259,271 @@ def make_envs(repo):
 
 
 # ======================================================================
+# R4.8 refresh histories: RTDC_Hierarchy.apply_filter / _check_parent_filter
+# / set_temporary_feature interpreted on a root -> A -> B hierarchy
+
+class HRootFilter:
+    _strict_attrs = True
+
+    def __init__(self, n):
+        self.manual = L.Arr([True] * n)
+        self.all = L.Arr([True] * n)
+
+
+class HRoot:
+    """model root dataset; `box` = root events its own filter settings
+    exclude (takes effect with apply_filter, like a changed min/max)"""
+    _strict_attrs = True
+
+    def __init__(self, n):
+        self.n = n
+        self.format = "dict"
+        self.identifier = "mm-root"
+        self.title = "root"
+        self.path = "none"
+        self.config = {"experiment": {}, "calculation": {},
+                       "filtering": {"polygon filters": []}}
+        self._usertemp = {}
+        self.features_scalar = ["deform"]
+        self.box = set()
+        self.filter = HRootFilter(n)
+        self.hash = "roothash"
+        self.applied = 0
+
+    def __len__(self):
+        return self.n
+
+    def __contains__(self, feat):
+        return feat in ("deform",) or feat in self._usertemp
+
+    def __getitem__(self, feat):
+        if feat in self._usertemp:
+            return self._usertemp[feat]
+        return L.Arr([("deform", i) for i in range(self.n)])
+
+    def apply_filter(self, *a, **k):
+        self.applied += 1
+        self.filter.all = L.Arr([m and i not in self.box for i, m in
+                                 enumerate(self.filter.manual.data)])
+
+
+def history_envs(repo):
+    it = L.Interp(repo)
+    np_ = L.NPModel()
+    menv = it.env(MAPPER, {"np": np_})
+
+    def imports(rel):
+        out = {}
+        for st in repo.tree(rel).body:
+            if isinstance(st, ast.ImportFrom):
+                for a in st.names:
+                    if a.name.startswith("map_indices_"):
+                        out[a.asname or a.name] = menv.lookup(a.name)
+        return out
+
+    def flt_of(ds):
+        if isinstance(ds, HRoot):
+            return ds.filter
+        return ds._attrs["_ds_filter"]
+
+    def all_of(ds):
+        f = flt_of(ds)
+        a = f.all if isinstance(ds, HRoot) else f._attrs["all"]
+        return list(a.data)
+
+    def spec_ids(ds):
+        if isinstance(ds, HRoot):
+            return list(range(ds.n))
+        par = ds._attrs["hparent"]
+        return [i for i, m in zip(spec_ids(par), all_of(par)) if m]
+
+    def filter_init(obj, rtdc_ds):
+        size = L._py_len(rtdc_ds)
+        L.store_attr(it, obj, "size", size, None)
+        L.store_attr(it, obj, "all", L.Arr([True] * size), None)
+        L.lookup_attr(it, obj, "reset", None)()
+
+    def filter_reset(obj):
+        size = L.lookup_attr(it, obj, "size", None)
+        L.store_attr(it, obj, "manual", L.Arr([True] * size), None)
+
+    def filter_update(obj, rtdc_ds, force=None):
+        size = L.lookup_attr(it, obj, "size", None)
+        if L._py_len(rtdc_ds) != size:
+            raise L.ModelFault("ValueError", "Change of RTDCBase size not "
+                               "supported!")
+        ids = spec_ids(rtdc_ds)
+        box = rtdc_ds._attrs["box_excl"]
+        man = L.lookup_attr(it, obj, "manual", None)
+        if len(man.data) != len(ids):
+            raise L.ModelFault("ValueError", "manual filter array of size "
+                               f"{len(man.data)} for {len(ids)} events")
+        L.store_attr(it, obj, "all", L.Arr(
+            [bool(m) and i not in box for i, m in zip(ids, man.data)]), None)
+
+    filt = L.PyBase("Filter", {"__init__": filter_init,
+                               "reset": filter_reset,
+                               "update": filter_update})
+    hext = {"np": np_, "hashobj": model_hashobj, "Filter": filt}
+    hext.update(imports(HFILT))
+    henv = it.env(HFILT, hext)
+
+    def base_filter(obj):
+        L.lookup_attr(it, obj, "_assert_filter", None)()
+        return L.lookup_attr(it, obj, "_ds_filter", None)
+
+    def base_apply(obj, force=None):
+        flt = base_filter(obj)
+        L.lookup_attr(it, flt, "update", None)(rtdc_ds=obj,
+                                               force=force or [])
+
+    rbase = L.PyBase("RTDCBase", {"filter": base_filter,
+                                  "apply_filter": base_apply,
+                                  "__init__": lambda obj, *a, **k: None},
+                     props=("filter",))
+    bext = {"np": np_, "hashobj": model_hashobj, "RTDCBase": rbase,
+            "dfn": L.namespace("dfn", FLUOR_TRACES=[]),
+            "Configuration": L.Opaque("Configuration"),
+            "HierarchyFilter": henv.lookup("HierarchyFilter")}
+    for st in repo.tree(BASE).body:
+        if isinstance(st, ast.ImportFrom) and (st.module or "").endswith(
+                "events"):
+            for a in st.names:
+                bext[a.asname or a.name] = L.Opaque(a.name)
+    benv = it.env(BASE, bext)
+    hcls = benv.lookup("RTDC_Hierarchy")
+    text = {"np": np_, "RTDC_Hierarchy": hcls,
+            "RTDCBase": L.ModelType("RTDCBase", lambda o: True),
+            "feat_logic": L.namespace(
+                "feat_logic", feature_exists=lambda f: True,
+                check_feature_shape=lambda f, d: None)}
+    text.update(imports(FTEMP))
+    tenv = it.env(FTEMP, text)
+    return it, hcls, tenv, spec_ids, all_of, flt_of
+
+
+def r48(ctx, repo):
+    node = repo.func(BASE, "RTDC_Hierarchy._check_parent_filter")
+    tnode = repo.func(FTEMP, "set_temporary_feature")
+    it, hcls, tenv, spec_ids, all_of, flt_of = history_envs(repo)
+    set_temp = tenv.lookup("set_temporary_feature")
+    n = 3
+
+    def new_child(parent, name):
+        obj = L.AstObject(hcls)
+        obj._attrs.update({
+            "hparent": parent, "_ds_filter": None, "_events": {},
+            "_length": None, "format": "hierarchy", "identifier": name,
+            "title": name, "path": "none", "_usertemp": {},
+            "config": {"experiment": {}, "calculation": {},
+                       "filtering": {"polygon filters": []}},
+            "box_excl": set()})
+        L.lookup_attr(it, obj, "apply_filter", None)()
+        return obj
+
+    def run_history(ops):
+        """-> None or (step description, problem)"""
+        root = HRoot(n)
+        a = new_child(root, "A")
+        b = new_child(a, "B")
+        lv = {"A": a, "B": b}
+        excl = {"A": set(), "B": set()}
+        done = []
+        for op in ops:
+            done.append(op)
+            kind = op[0]
+            if kind == "R":
+                root.box = set(op[1])
+                continue
+            if kind == "m":
+                d = lv[op[1]]
+                ids = spec_ids(d)
+                man = flt_of(d)._attrs["manual"]
+                if not ids or len(man.data) != len(ids):
+                    continue       # nothing visible to exclude
+                man.data[0] = False
+                excl[op[1]].add(ids[0])
+                continue
+            if kind == "F":
+                L.lookup_attr(it, b, "rejuvenate", None)()
+            elif kind == "T":
+                data = L.Arr([50 + k for k in range(L._py_len(b))])
+                set_temp(b, "tmp", data)
+            # specification after a refresh of the youngest member
+            if all_of(root) != [i not in root.box for i in range(n)]:
+                return done, "the root filter was not evaluated"
+            for name in ("A", "B"):
+                d = lv[name]
+                ids = spec_ids(d)
+                f = flt_of(d)
+                man = list(f._attrs["manual"].data)
+                if L._py_len(d) != len(ids) or len(man) != len(ids):
+                    return done, (f"{name} has {L._py_len(d)} events / a "
+                                  f"manual array of {len(man)}, its parent "
+                                  f"selects {len(ids)}")
+                want = [i not in excl[name] for i in ids]
+                if man != want:
+                    lost = [i for i, m, w in zip(ids, man, want) if m != w]
+                    return done, (
+                        f"{name}.filter.manual is {man} for the root events "
+                        f"{ids}, manually excluded root events "
+                        f"{sorted(excl[name])}: wrong for root event(s) "
+                        f"{lost}")
+                if list(f._attrs["all"].data) != want:
+                    return done, f"{name}.filter.all does not follow manual"
+        return None
+
+    def fmt(ops):
+        names = {"R": lambda o: f"root filter excludes {sorted(o[1])}",
+                 "m": lambda o: f"{o[1]}.filter.manual[0]=False",
+                 "F": lambda o: "B.rejuvenate()",
+                 "T": lambda o: "set_temporary_feature(B, …)"}
+        return "; ".join(names[o[0]](o) for o in ops)
+
+    R = (lambda *s: ("R", tuple(s)))
+    everything = R(0, 1, 2)
+    hist_f, hist_t = [], []
+    for m in (("m", "B"), ("m", "A")):
+        for r in ((R(0), R(1), everything) if ctx.tier == "thorough"
+                  else (R(0), everything)):
+            hist_f.append([m, ("F",), r, ("F",), R(), ("F",)])
+            hist_f.append([m, r, ("F",), R(), ("F",)])
+            hist_f.append([r, ("F",), m, ("F",), R(), ("F",)])
+            hist_t.append([m, r, ("T",), R(), ("F",)])
+            hist_t.append([m, ("T",), r, ("F",), R(), ("F",)])
+    hist_f.append([("m", "A"), ("m", "B"), ("F",), everything, ("F",), R(),
+                   ("F",)])
+    if ctx.tier == "thorough":
+        edits = [("m", "B"), ("m", "A"), R(0), R(1), everything, R()]
+        for seq in itertools.product(edits, repeat=3):
+            h = []
+            for e in seq:
+                h += [e, ("F",)]
+            hist_f.append(h)
+    for label, hists, nd in (
+            ("manual exclusions survive refresh histories", hist_f, node),
+            ("manual exclusions survive a temporary-feature assignment",
+             hist_t, tnode)):
+        bad = None
+        for h in hists:
+            res = L.run(lambda: run_history(h))
+            if res[0] != "ok":
+                bad = bad or (h, f"{res[0]} {res[1]}: {res[2]}")
+            elif res[1] is not None:
+                bad = bad or res[1]
+            if bad:
+                break
+        ctx.ob("R4.8", bad is None,
+               f"after every refresh of the youngest member each child "
+               f"excludes exactly its manually excluded root events, also "
+               f"when they were hidden or the child was empty in between "
+               f"({len(hists)} histories on root(3) > A > B)"
+               if bad is None else
+               f"history [{fmt(bad[0])}]: {bad[1]}", node=nd, label=label)
+
+
+
+# ======================================================================
 # helper extraction: same-class method calls are inlined (two levels) so
 # that the ordering rules see through `self._helper()` statements
 
@@ -1500,6 +1765,56 @@ def r47(ctx, repo, henv, n, depths, n_deep):
                f"specification {bad_a[4]}", node=anode,
                label=f"root indices applied [depth {depth}]")
 
+    # larger index values: sets of small integers are not iterated in
+    # ascending order ({1, 8} -> 8, 1), so any step that relies on sorted
+    # input without sorting shows up only beyond 8 events
+    big = 17
+    bad_b = None
+    cnt_b = 0
+    for depth_b in (1, 2):
+        ch_b = build(big, ((True,) * big,) * depth_b)
+        child_b = ch_b[-1]
+        res = L.run(lambda: hf_cls(child_b))
+        if res[0] != "ok":
+            bad_b = bad_b or ("construction of the filter", res, None)
+            continue
+        hf_b = res[1]
+        for excl, old in (((1, 8), ()), ((1, 16), ()), ((8, 1), (16,)),
+                          ((3, 16), (1, 8)), ((0, 8, 16), ())):
+            man = [i not in excl for i in range(big)]
+            hf_b._attrs["manual"] = L.Arr(man)
+            hf_b._attrs["_man_root_ids"] = list(old)
+            # all events visible: stored ids that are not excluded any more
+            # are dropped, the result is exactly the excluded set
+            want = sorted(excl)
+            cnt_b += 1
+            res = L.run(lambda: sorted(aslist(L.lookup_attr(
+                it, hf_b, "retrieve_manual_indices", None)(child_b),
+                "result")))
+            if res != ("ok", want) and bad_b is None:
+                bad_b = (f"depth {depth_b}, {big} events, events "
+                         f"{list(excl)} excluded, stored {list(old)}", res,
+                         want)
+            hf_b._attrs["manual"] = L.Arr([True] * big)
+            hf_b._attrs["_man_root_ids"] = []
+            cnt_b += 1
+            res = L.run(lambda: L.lookup_attr(
+                it, hf_b, "apply_manual_indices", None)(
+                    child_b, list(set(excl))))
+            got = [i for i, k in enumerate(hf_b._attrs["manual"].data)
+                   if not k]
+            if (res[0] != "ok" or got != want) and bad_b is None:
+                bad_b = (f"depth {depth_b}, apply_manual_indices("
+                         f"{list(set(excl))})",
+                         res if res[0] != "ok" else ("ok", got), want)
+    ctx.ob("R4.7", bad_b is None,
+           f"index sets beyond 8 events (unordered set iteration) are "
+           f"translated correctly ({cnt_b} evaluations)" if bad_b is None
+           else f"{bad_b[0]}: {_res(bad_b[1])}, specification {bad_b[2]} - "
+           f"an index translation assumes sorted input that is not sorted "
+           f"(set iteration order)", node=rnode,
+           label="index sets in set-iteration order")
+
     # instance isolation: the state of one child's filter (created by its
     # constructor, never overwritten by the analyser here) must not show up
     # in the filter of an unrelated child
@@ -1655,7 +1970,10 @@ def run(ctx):
     ctx.rule("R4.6", "parent-change witness covers every ancestor and "
              "every event of their filters", minimum=3)
     ctx.rule("R4.7", "retrieve/apply of manual indices equal the root-index "
-             "set model; per-instance state", minimum=7)
+             "set model; per-instance state", minimum=8)
+    ctx.rule("R4.8", "refresh histories on root > A > B: manual exclusions "
+             "follow the measurement events through hiding, emptying and "
+             "temporary-feature assignment", minimum=2)
     r41(ctx, repo)
     r45a(ctx, repo)
     r42(ctx, repo)
@@ -1667,6 +1985,7 @@ def run(ctx):
     r46(ctx, repo, henv, 3, (1, 2, 3) if thorough else (1, 2))
     r46_digest(ctx, repo, it)
     r47(ctx, repo, henv, 3, (1, 2), 3 if thorough else 2)
+    r48(ctx, repo)
     ctx.stat("interpreter steps", it.steps)
 
 
@@ -2129,4 +2448,55 @@ MUTANTS = list(MUTANTS) + [
       "            child_cls = ChildNDArray if len(\n"
       "                self.hparent[feat].shape) > 1 else ChildScalar\n"
       "            return child_cls(self, feat)\n"), "R4.2"),
+]
+
+# round-4 seeded changes (/verif/seeded/C04_10 .. C04_12, C06_11)
+MUTANTS = list(MUTANTS) + [
+    ("manual indices not re-applied to an empty child (seeded)", BASE,
+     ("            self.filter.apply_manual_indices(self, manual_pidx)\n",
+      "            if len(self):\n"
+      "                self.filter.apply_manual_indices(self, manual_pidx)\n"),
+     "R4.8"),
+    ("root filter applied before the child translated its manual edits "
+     "(seeded)", FTEMP,
+     ("        rtdc_ds.rejuvenate()\n",
+      "        root_parent.apply_filter()\n        rtdc_ds.rejuvenate()\n"),
+     "R4.8"),
+    ("parent2child by bisection of possibly unsorted indices (seeded)",
+     MAPPER,
+     ("    same = np.isin(pf_loc, parent_indices)\n",
+      "    pidx = np.asarray(parent_indices, dtype=int)\n"
+      "    if pidx.size == 0:\n"
+      "        return np.zeros(0, dtype=int)\n"
+      "    pos = np.minimum(np.searchsorted(pidx, pf_loc), pidx.size - 1)\n"
+      "    same = pidx[pos] == pf_loc\n"), "R4."),
+    ("filter arrays above 1 MiB hashed by a strided sample (seeded C06_11)",
+     UTIL,
+     ("    elif isinstance(obj, np.ndarray):\n        return obj.tobytes()\n",
+      "    elif isinstance(obj, np.ndarray):\n"
+      "        if obj.nbytes > 2**20:\n"
+      "            step = int(np.ceil(obj.nbytes / 2**20))\n"
+      "            return obj2bytes([str(obj.shape), str(obj.dtype)]) \\\n"
+      "                + obj.reshape(-1)[::step].tobytes()\n"
+      "        return obj.tobytes()\n"), "R4.6"),
+    ("manual indices of a re-created filter applied only when the parent "
+     "is non-empty", BASE,
+     ("            self.filter.apply_manual_indices(self, manual_pidx)\n",
+      "            if np.any(self.hparent.filter.all):\n"
+      "                self.filter.apply_manual_indices(self, manual_pidx)\n"),
+     "R4.8"),
+]
+
+TWINS = list(TWINS) + [
+    ("stored root indices kept unsorted (translation by np.isin)", HFILT,
+     [("            pall = sorted(list(set(pbool + pold)))",
+       "            pall = list(set(pbool + pold))"),
+      ("            self._man_root_ids = sorted(all_idx)",
+       "            self._man_root_ids = all_idx")]),
+    ("manual indices re-applied only when there are any", BASE,
+     ("            self.filter.apply_manual_indices(self, manual_pidx)\n",
+      "            if len(manual_pidx):\n"
+      "                self.filter.apply_manual_indices(self, manual_pidx)\n"
+      "            else:\n"
+      "                self.filter.apply_manual_indices(self, [])\n")),
 ]
